@@ -59,7 +59,13 @@ impl DestructTuple {
                 elements.iter().map(|ins| &ins.instruction),
             )),
             instruction => {
-                let types = instruction.return_type().flatten_tuple().unwrap();
+                // a never-typed right-hand side (met when folding with the actual value of
+                // an iterator declared '-> !') binds every name to the never type
+                let Some(types) = instruction.return_type().flatten_tuple() else {
+                    local_variables
+                        .extend(self.idents.iter().cloned().map(|ident| (ident, Type::Never)));
+                    return;
+                };
                 local_variables.extend(zip(self.idents.iter().cloned(), types.iter().cloned()))
             }
         }
